@@ -630,3 +630,31 @@ Example C03_ex_max_diff :
   max_diff ROps ex23 (transpose ROps ex23) = None /\ max_diff ROps ex23 ex23 = Some 0%R /\
   exists d, max_diff ROps ex23 (mkdm 2 3 [1; 4; 2; 8; 3; 5]%R) = Some d /\ d = 3%R.
 Proof. exact max_diff_ex. Qed.
+
+(* ------------------------------------------------------------------------------------------
+   Rounding error of the binary64 instance of `sum` and the vector `dot` product (the very
+   definitions the correspondence executes against the Rust code), proved through Flocq's
+   PrimFloat bridge (Base/FloatError.v: FR x = real value of a float, u64 = 2^-53,
+   eta64 = 2^-1075).  The only no-overflow hypothesis is that the RESULT is finite.  Bounds are
+   relative to the sum of magnitudes (there is cancellation); RM m is m with every entry mapped
+   to its real value.
+   ------------------------------------------------------------------------------------------ *)
+From Coq Require Import Floats.
+From SC Require Base.FloatError C03.ProofsFloat.
+
+Theorem C03_sum_float_error : forall (m : C03.Model.dm PrimFloat.float),
+  FloatError.ffin (C03.Model.sum FOps m) ->
+  let v := map FloatError.FR (C03.Model.values m) in
+  C03.Model.sum ROps (C03.ProofsFloat.RM m) = FloatError.Rsuml v /\ Forall FloatError.ffin (C03.Model.values m) /\
+  (Rabs (FloatError.FR (C03.Model.sum FOps m) - FloatError.Rsuml v)
+     <= ((1 + FloatError.u64) ^ (length (C03.Model.values m) - 1) - 1) * FloatError.Rsumabs v)%R.
+Proof. exact C03.ProofsFloat.sum_float_error. Qed.
+
+Theorem C03_dot_float_error : forall (a b : C03.Model.dm PrimFloat.float) (d : PrimFloat.float),
+  C03.Model.dot FOps a b = Some d -> FloatError.ffin d ->
+  let n := (C03.Model.nrows a * C03.Model.ncols a)%nat in
+  let t := fun i => (FloatError.FR (nth i (C03.Model.values a) 0%float) * FloatError.FR (nth i (C03.Model.values b) 0%float))%R in
+  C03.Model.dot ROps (C03.ProofsFloat.RM a) (C03.ProofsFloat.RM b) = Some (FloatError.Rsuml (map t (seq 0 n))) /\
+  (Rabs (FloatError.FR d - FloatError.Rsuml (map t (seq 0 n))) <=
+    ((1 + FloatError.u64) ^ n - 1) * (FloatError.Rsumabs (map t (seq 0 n)) + INR n * FloatError.eta64) + INR n * FloatError.eta64)%R.
+Proof. exact C03.ProofsFloat.dot_float_error. Qed.
